@@ -303,15 +303,31 @@ func indexHeader(
 				return err
 			}
 		case records.STFSRecordActionUpdate:
-			moveAfterEdits := false
+			move := false
 			oldName := hdr.Name
 			if _, ok := hdr.PAXRecords[records.STFSRecordReplacesName]; ok {
-				moveAfterEdits = true
+				move = true
 				oldName = hdr.PAXRecords[records.STFSRecordReplacesName]
 			}
 
+			if move {
+				// Move the header first, replacing whatever is stored under the new name, so that the edits below apply to the moved header
+				if _, err := metadataPersister.GetHeader(context.Background(), oldName); err != nil {
+					// To support ignoring previous `Move` operations, we need to ignore non-existent headers here, as moving changes the primary keys
+					if err == sql.ErrNoRows {
+						return nil
+					}
+
+					return err
+				}
+
+				if err := metadataPersister.MoveHeader(context.Background(), oldName, hdr.Name, record, block); err != nil {
+					return err
+				}
+			}
+
 			var newHdr *models.Header
-			if replacesContent, ok := hdr.PAXRecords[records.STFSRecordReplacesContent]; ok && replacesContent == records.STFSRecordReplacesContentTrue {
+			if replacesContent, ok := hdr.PAXRecords[records.STFSRecordReplacesContent]; ok && replacesContent == records.STFSRecordReplacesContentTrue && !move {
 				// Content & metadata update; use the new record & block
 				h, err := converters.TarHeaderToDBHeader(record, record, block, block, hdr)
 				if err != nil {
@@ -324,8 +340,8 @@ func indexHeader(
 					return err
 				}
 			} else {
-				// Metadata-only update; use the old record & block
-				oldHdr, err := metadataPersister.GetHeader(context.Background(), oldName)
+				// Metadata-only update (a move never carries content, even if it inherited the record from an earlier update); use the old record & block
+				oldHdr, err := metadataPersister.GetHeader(context.Background(), hdr.Name)
 				if err == nil {
 					h, err := converters.TarHeaderToDBHeader(oldHdr.Record, record, oldHdr.Block, block, hdr)
 					if err != nil {
@@ -341,13 +357,6 @@ func indexHeader(
 
 				// To support ignoring previous `Move` operations, we need to ignore non-existent headers here, as moving changes the primary keys
 				if err != nil && err != sql.ErrNoRows {
-					return err
-				}
-			}
-
-			if moveAfterEdits {
-				// Move header (will be a no-op if the header has been moved before)
-				if err := metadataPersister.MoveHeader(context.Background(), oldName, hdr.Name, record, block); err != nil {
 					return err
 				}
 			}
